@@ -7,6 +7,9 @@ props = [json.loads(l) for l in open(os.path.join(ROOT, 'properties.jsonl'))]
 
 # id -> (technique, level text, level note, design ref)
 CHECKS = {
+ 'C10': ('runtime monitors over hostile inputs: journalling child-process fuzzers for all 177 binary decoders and all text/JSON entry points (go/parser completeness self-check) with panic / fatal-error / allocation (heap-profile attributed) / thread-CPU monitors; structure-aware and directed mutations of real blocks and transactions, codec round-tripped, validated at transaction and block level on real chain states and applied + reverted when accepted; one tier under -race (checkptr)',
+         'Every DecodeFrom / UnmarshalText / UnmarshalJSON / Parse* entry point of types, consensus, gateway and rhp v2/v3/v4 receives valid encodings, all prefixes, byte edits, random bytes, length-prefix attacks on every 8-byte window (incl. process-fatal magnitudes, run last in sacrificial sub-workers), deep/wide policy nests and numeric/hex/JSON-structure attacks; each call must return a value or an error, allocate at most 1 MiB + 1024 B per input byte (4096 for JSON) and stay within 10^4 x the calibrated per-byte CPU cost (confirmed alone). About 10^5 re-signed structure-aware variants of real blocks per quick run (extreme currencies, proofs, indices, duplicated/missing parents, policies, resolution types, cross-kind IDs) are validated in every era incl. the legacy ephemeral window; accepted ones are applied and reverted; any panic is a violation keyed by the innermost core frame.',
+         'Trusted: Go runtime accounting (TotalAlloc, sampled heap profile, thread CPU time); bounds are restatements of "out of proportion" (1 KiB per byte + 1 MiB) and of "terminates" (bounded progress); a watchdog firing is inconclusive.', '§5 C10'),
  'C14': ('runtime differential monitor: independently written functional policy evaluator (two formulations cross-checked) vs SpendPolicy.Verify over exhaustively enumerated small policy trees x witness assignments and random large trees; address-commitment laws; limits; end-to-end spends through consensus',
          'All policy trees of depth <= 1 / breadth <= 3 and depth <= 2 / breadth <= 2 over every leaf kind with every threshold count (exhaustive sub-spaces), legacy unlock conditions over all short key/signature sequences incl. huge required counts, and random trees up to the complexity limits are verified with every witness assignment class (valid, corrupted, for another key, missing, surplus, swapped) at heights/times around each lock and compared with an evaluator written from the statement; Address(p) is compared with the definition and under every opaque substitution; opaqued branches become unusable; limits reject without blow-up; real outputs are spent through ValidateV2Transaction with harness-computed parent height and median.',
          'Trusted: the functional evaluator and its second formulation (disagreement between them = inconclusive); x/crypto blake2b for the address model.', '§5 C14'),
